@@ -78,3 +78,20 @@ Fixpoint run (s : q) (es : list event) : option q :=
   end.
 
 Definition init (max : nat) : q := mkQ (if max =? 0 then 1 else max) [] [].
+
+(* ---------- AcquireMulti: the bookkeeping of one attempt (wait on queue lockI, try the others in index order, back off) ---------- *)
+(* the inner loop: indices i..n-1 in order, skipping lockI; try i = whether TryAcquire succeeds *)
+Fixpoint try_rest (fuel i n lockI : nat) (try : nat -> bool) (acq : list nat) : list nat * option nat :=
+  match fuel with
+  | O => (acq, None)
+  | S f =>
+      if n <=? i then (acq, None)
+      else if Nat.eqb i lockI then try_rest f (S i) n lockI try acq
+      else if try i then try_rest f (S i) n lockI try (acq ++ [i])
+      else (acq, Some i)
+  end.
+(* one attempt: what was acquired (in order) and, on failure, the index that could not be had *)
+Definition attempt (n lockI : nat) (try : nat -> bool) : list nat * option nat := try_rest n 0 n lockI try [lockI].
+(* the cleanup after a failure at index i: the blocking queue if it lies beyond i, then i-1 .. 0 *)
+Definition cleanup (lockI i : nat) : list nat := (if i <? lockI then [lockI] else []) ++ rev (seq 0 i).
+
